@@ -34,6 +34,8 @@ type c02Case struct {
 	// outgrows it the server may give up the connection, and as after a
 	// stall only "nothing of the message is executed" is demanded.
 	LineLimit int `json:"line_limit,omitempty"`
+	// TLS: the connection is under (implicit) TLS; every segment is a record
+	TLS bool `json:"tls,omitempty"`
 }
 
 var c02Baits = []string{
@@ -135,6 +137,7 @@ func c02Gen(t *rapid.T) c02Case {
 		c.ReadLim = rapid.IntRange(0, max(0, len(msg))).Draw(t, "k")
 	}
 	c.Reads = genReadSizes(t, "reads")
+	c.TLS = rapid.IntRange(0, 7).Draw(t, "tls") == 0
 	switch rapid.IntRange(0, 3).Draw(t, "result") {
 	case 0, 1:
 	case 2:
@@ -162,6 +165,8 @@ func c02Run(c c02Case) Verdict {
 	stall := c.StallAt > 0 && c.StallAt < markerOff
 	if stall {
 		cfg.ReadTimeoutMs = 30
+	} else if c.TLS {
+		cfg.TLS = "implicit"
 	}
 	overlong := false
 	if c.LineLimit >= 32 {
@@ -171,7 +176,11 @@ func c02Run(c c02Case) Verdict {
 	script := harness.Script{LMTPSession: c.Mode == 2,
 		Data: []harness.DataPlan{{Read: harness.ReadPlan{Sizes: c.Reads, Limit: c.ReadLim}, Result: c.Result, Honest: true}}}
 	r := harness.NewRig(cfg, script)
-	w, _ := r.Dial()
+	w, derr := r.Dial()
+	if derr != nil {
+		w.Finish()
+		return Verdict{Inconclusive: "dial: " + derr.Error()}
+	}
 	early, e := openData(w, lmtp, c.NRcpt)
 	if e != "" {
 		w.Finish()
@@ -238,6 +247,8 @@ func c02Run(c c02Case) Verdict {
 	if stall {
 		v.Classes = append(v.Classes, "stalled_past_read_timeout")
 		v.NonTrivial = hasBait
+	} else if c.TLS {
+		v.Classes = append(v.Classes, "under_tls")
 	}
 	// (i) no bait ever reaches a callback
 	for _, e := range evs {
